@@ -207,18 +207,27 @@ func (f *file) updateModTime() {
 }
 
 func (f *file) Read(p []byte) (n int, err error) {
+	if f.fileData == nil {
+		return 0, hackpadfs.ErrClosed
+	}
 	n, err = f.ReadAt(p, f.offset)
 	f.offset += int64(n)
 	return
 }
 
 func (f *file) ReadBlob(length int) (blob blob.Blob, n int, err error) {
+	if f.fileData == nil {
+		return nil, 0, hackpadfs.ErrClosed
+	}
 	blob, n, err = f.ReadBlobAt(length, f.offset)
 	f.offset += int64(n)
 	return
 }
 
 func (f *file) ReadAt(p []byte, off int64) (n int, err error) {
+	if f.fileData == nil {
+		return 0, hackpadfs.ErrClosed
+	}
 	blob, n, err := f.ReadBlobAt(len(p), off)
 	if blob != nil {
 		copy(p, blob.Bytes())
@@ -227,6 +236,9 @@ func (f *file) ReadAt(p []byte, off int64) (n int, err error) {
 }
 
 func (f *file) ReadBlobAt(length int, off int64) (b blob.Blob, n int, err error) {
+	if f.fileData == nil {
+		return nil, 0, hackpadfs.ErrClosed
+	}
 	if off >= int64(f.Size()) {
 		return nil, 0, io.EOF
 	}
@@ -251,6 +263,9 @@ func (f *file) ReadBlobAt(length int, off int64) (b blob.Blob, n int, err error)
 }
 
 func (f *file) Seek(offset int64, whence int) (int64, error) {
+	if f.fileData == nil {
+		return 0, hackpadfs.ErrClosed
+	}
 	newOffset := f.offset
 	switch whence {
 	case io.SeekStart:
@@ -289,6 +304,9 @@ func (f *file) WriteBlobAt(p blob.Blob, off int64) (n int, err error) {
 }
 
 func (f *file) writeBlobAt(op string, p blob.Blob, off int64) (n int, err error) {
+	if f.fileData == nil {
+		return 0, hackpadfs.ErrClosed
+	}
 	if f.flag&hackpadfs.FlagAppend != 0 {
 		off = int64(f.Size())
 	}
@@ -320,10 +338,16 @@ func (f *file) writeBlobAt(op string, p blob.Blob, off int64) (n int, err error)
 }
 
 func (f *file) Stat() (hackpadfs.FileInfo, error) {
+	if f.fileData == nil {
+		return nil, hackpadfs.ErrClosed
+	}
 	return fileInfo{Record: &f.runOnceFileRecord, Path: f.path}, nil
 }
 
 func (f *file) Truncate(size int64) error {
+	if f.fileData == nil {
+		return hackpadfs.ErrClosed
+	}
 	if f.Mode().IsDir() {
 		return &hackpadfs.PathError{Op: "truncate", Path: f.path, Err: hackpadfs.ErrIsDir}
 	}
@@ -357,6 +381,9 @@ func (f *file) Truncate(size int64) error {
 }
 
 func (f *file) ReadDir(n int) ([]hackpadfs.DirEntry, error) {
+	if f.fileData == nil {
+		return nil, hackpadfs.ErrClosed
+	}
 	dirNames, err := f.ReadDirNames()
 	if err != nil {
 		return nil, &hackpadfs.PathError{Op: "readdir", Path: f.path, Err: err}
@@ -411,6 +438,9 @@ func (d *dirEntry) Info() (hackpadfs.FileInfo, error) {
 }
 
 func (f *file) Chmod(mode hackpadfs.FileMode) error {
+	if f.fileData == nil {
+		return hackpadfs.ErrClosed
+	}
 	newMode := (f.Mode() & ^chmodBits) | (mode & chmodBits)
 	f.modeOverride = &newMode
 	return f.save()
